@@ -152,6 +152,7 @@ def check_C05(pid, tier, seed, verdict):
 # ------------------------------------------------------------------------------- C01 / C02 / C08
 MUX_OWNER = {
     "reader obtained bytes of a different stream": "C02",
+    "an open returned a stream id that is already open (two streams share one id)": "C02",
     "data or EOF on a stream that was never opened": "C02",
     "end-of-stream although the writer has not finished": "C02",
     "end-of-stream without close": "C02",
@@ -219,6 +220,13 @@ def check_C01(pid, tier, seed, verdict):
                        "virtual time: 'nothing in flight' = the paused-clock runtime is idle"])
     pext = _protocol_pass(pid, tier, seed, verdict, [])
     cov.update(pext)
+    # the session's own keep-alive writes under transport stalls (shorter and longer than the monitor's timeout): a torn
+    # frame on a session that stays open loses bytes of every open stream (scenarios shared with C11)
+    hrun = V.run_harness(pid, "wirepath", seed, tier, out_name="hbstall.ndjson", extra={"part": "hbstall"})
+    hres = V.run_trace(pid, "Trace_WireOrder.tla", "Trace_WireOrder.cfg", hrun["trace"])
+    verdict.add_trace_result("hbstall", hres, hrun)
+    V.log(f"[{pid}] keep-alive stalls: {hres['cnt']['scn']} scenarios, {hres['cnt']['wf']} wire frames, bad={len(hres['bad'])}")
+    cov["hbstall_scenarios"] = hres["cnt"]["scn"]
     return cov, assumptions
 
 
@@ -661,6 +669,16 @@ def check_C08(pid, tier, seed, verdict):
     cres = V.run_trace(pid, "Trace_Close.tla", "Trace_Close.cfg", crun["trace"])
     verdict.add_trace_result("close", cres, crun)
     pext = _protocol_pass(pid, tier, seed, verdict, mcs)
+    # clients of every protocol version (scripted, v absent / 1 / 2 / 3..255 / garbage) against the real stream handler:
+    # the target's bytes and, after its close, the end-of-stream frame must be sent (Negotiation.tla; only this clause counts)
+    ng = V.run_gen(pid, "MC_Negotiation.tla", "MC_Negotiation.cfg", workers=1)
+    nsp = os.path.join(V.workdir(pid), "nego.scn")
+    V.write_scenarios(nsp, ng["scenarios"])
+    nrun = V.run_harness(pid, "nego", seed, tier, nsp)
+    nres = dict(V.run_trace(pid, "Trace_Nego.tla", "Trace_Nego.cfg", nrun["trace"]))
+    nres["bad"] = [b for b in nres["bad"] if b["why"].startswith("C08:")]
+    verdict.add_trace_result("nego", nres, nrun)
+    V.log(f"[{pid}] clients of every protocol version: {nres['cnt']['nego']} cases, bad={len(nres['bad'])}")
     cnt, cc = res["cnt"], cres["cnt"]
     V.log(f"[{pid}] trace: receive side {cnt['scn']} scenarios / {cnt['fin']} FINs / {cnt['quiesce']} quiescence checks "
           f"(bad({pid})={len(mine['bad'])}); sending side {cc['scn']} proxied connections / {cc['cgot']} end-of-stream "
